@@ -27,7 +27,7 @@ What I want — FIVE independent SMALL edits of the kind found in routine pull r
   2. demo.py — a deterministic program (fixed seeds) that exercises the refactored code through the public API on a range of inputs INCLUDING the edge cases the property names, records the results, and compares them with reference values; it must pass (exit 0) both on the unchanged tree and with the refactoring applied, and print a digest of the outputs so that both runs can be seen to agree bit-for-bit (or to rounding error where the arithmetic was legitimately re-associated — say which).
   3. notes.md — what was restructured and the argument why behaviour is unchanged.
 
-Kinds of edit to draw from (pick five DIFFERENT kinds; do NOT rewrite an algorithm - these are the small things that accompany ordinary maintenance): add an input check or guard clause that raises for arguments that were already invalid; add a new optional keyword parameter whose default keeps the old behaviour (and thread it through one call); add or reword comments, docstrings, type annotations; rename a local variable or a private helper (and its call sites); extract 2-6 lines into a private helper or inline a tiny helper; reorder independent statements; swap the branches of an if/else with the test negated; replace an accumulate-in-a-loop by a comprehension or the reverse; replace len(x) by x.shape[0] (arrays only), `x.sum(0)` by `x.sum(axis=0)`, `a.dot(b)` by `a @ b` (float matrices), `numpy.zeros(n) + c` by `numpy.full(n, c)`; change positional arguments to keywords; import-style changes (`import numpy as np`); replace a literal by a named module-level constant; add logging / a warnings.warn on a path that does not change results; use tuple unpacking or un-unpack; convert `%`-formatting of an error message to an f-string. The SAME demo.py may be shared by several of the five edits (copy it into each directory). Every edit must be genuinely equivalent for ALL inputs in the quantifier of the property - if you are not sure, do not deliver it.
+Kinds of edit to draw from (pick five DIFFERENT kinds; do NOT rewrite an algorithm - these are the small things that accompany ordinary maintenance): add an input check or guard clause that raises for arguments that were already invalid; add a new optional keyword parameter whose default keeps the old behaviour (and thread it through one call); add or reword comments, docstrings, type annotations; rename a local variable or a private helper (and its call sites); extract 2-6 lines into a private helper or inline a tiny helper; reorder independent statements; swap the branches of an if/else with the test negated; replace an accumulate-in-a-loop by a comprehension or the reverse; replace len(x) by x.shape[0] (arrays only), `x.sum(0)` by `x.sum(axis=0)`, `a.dot(b)` by `a @ b` (float matrices), `numpy.zeros(n) + c` by `numpy.full(n, c)`; change positional arguments to keywords; import-style changes (`import numpy as np`); replace a literal by a named module-level constant; add logging / a warnings.warn on a path that does not change results; use tuple unpacking or un-unpack; convert `%`-formatting of an error message to an f-string. The SAME demo.py may be shared by several of the five edits (copy it into each directory). Spread the five edits over DIFFERENT anchored functions (not only the first anchor; include at least one sibling class or subclass and one helper). Every edit must be genuinely equivalent for ALL inputs in the quantifier of the property - if you are not sure, do not deliver it.
 
 Final answer: a short summary per refactoring (file, function, kind of rewrite) and confirmation of: tests pass with it; demo passes without and with it with identical digests.""")
 PY
